@@ -224,3 +224,35 @@ func lookupMethod(t *types.Named, name string) *types.Func {
 	f, _ := obj.(*types.Func)
 	return f
 }
+
+// deepFuncs returns fn and every module function reachable from it through the call-string walk.
+func deepFuncs(p *Program, fn *ssa.Function) []*ssa.Function {
+	w, _ := allNodes(p, fn)
+	seen := map[*ssa.Function]bool{fn: true}
+	out := []*ssa.Function{fn}
+	for n := range w.Reached {
+		if !seen[n.Ctx.Fn] {
+			seen[n.Ctx.Fn] = true
+			out = append(out, n.Ctx.Fn)
+		}
+	}
+	return out
+}
+
+// deepInstrs visits the instructions of fn and of every module function reachable from it.
+func deepInstrs(p *Program, fn *ssa.Function, f func(in ssa.Instruction)) {
+	for _, g := range deepFuncs(p, fn) {
+		instrsOf(g, f)
+	}
+}
+
+// rootSite returns, for a node of a walk rooted at root, the instruction of the root function under which it executes.
+func rootSite(n Node) ssa.Instruction {
+	c := n.Ctx
+	in := n.In
+	for c != nil && c.Parent != nil {
+		in = c.Site
+		c = c.Parent
+	}
+	return in
+}
